@@ -1038,6 +1038,31 @@ theorem raw_store_key_witness : let r : Nat → Nat := fun n => if n = 1 then 2 
     (getOrCreate r r id {} 1 .gauge).bind (fun v => getOrCreate r r id v 1 .gauge) = none := by
   decide
 
+/-- Tie T1 for the ungrouped vecs (repaired code, `fix:` d5e10a6): `Gauge` / `Counter` / `Histogram` look
+the vec up, and `Register…` double-checks, names and stores it, under the ONE resolved name — the same
+three-uses-one-name shape as the vault, so `every_spelling_obtains` / `later_uses_all_served` speak
+about the vecs as well (a vec is "obtained" = found or created). -/
+theorem vec_names_shape : Facts.c16VecNames =
+    ["Gauge:", "m.Gauges[m.resolveMetricName(metric)]",
+     "RegisterGauge:", "metricName := m.resolveMetricName(metric)", "m.Gauges[metricName]", "Name: metricName",
+     "m.Gauges[metricName]",
+     "Counter:", "m.Counters[m.resolveMetricName(metric)]",
+     "RegisterCounter:", "metricName := m.resolveMetricName(metric)", "m.Counters[metricName]", "Name: metricName",
+     "m.Counters[metricName]",
+     "Histogram:", "m.Histograms[m.resolveMetricName(metric)]",
+     "RegisterHistogram:", "metricName := m.resolveMetricName(metric)", "m.Histograms[metricName]",
+     "Name: metricName", "m.Histograms[metricName]"] := by
+  decide
+
+/-- Witness about the UNREPAIRED vec cache (lookup and store under the written name, registration under
+the resolved one): `{PREFIX}x` (1) then `x` (2) — the second spelling misses the cache, registers `x`
+again, `MustRegister` panics, the operation is dropped; and the other way round. Corpus case 20. -/
+theorem raw_vec_key_unrepaired_witness : let r : Nat → Nat := fun n => if n = 1 then 2 else n
+    (getOrCreate id r id {} 1 .gauge).bind (fun v => getOrCreate id r id v 2 .gauge) = none ∧
+    (getOrCreate id r id {} 2 .gauge).bind (fun v => getOrCreate id r id v 1 .gauge) = none ∧
+    ((getOrCreateResolved r {} 1 .gauge).bind (fun v => getOrCreateResolved r v 2 .gauge)).isSome = true := by
+  decide
+
 end names
 
 /-- Tie T1 for what the reader writes to: between `Decode` and `append` the loop of
